@@ -216,6 +216,51 @@ fn chars(sink: &Sink) -> Tally {
         .reduce(Tally::default, Tally::merge)
 }
 
+/// Valid texts with ONE position replaced by every Unicode scalar value: catches parsers that look
+/// at bytes / truncated code points instead of characters.
+fn unicode_templates(sink: &Sink) -> Tally {
+    let templates: [(&str, u8); 6] = [("e2e4", 0), ("a7a8q", 0), ("h1", 1), ("e", 2), ("4", 3), ("q", 4)];
+    (0..0x110000u32)
+        .into_par_iter()
+        .fold(Tally::default, |mut t, u| {
+            let c = match char::from_u32(u) {
+                Some(c) => c,
+                None => return t,
+            };
+            for (tpl, ty) in templates {
+                let chars: Vec<char> = tpl.chars().collect();
+                for pos in 0..=chars.len() {
+                    // substitution at pos (when pos < len) and insertion at pos
+                    let mut variants: Vec<String> = Vec::with_capacity(2);
+                    if pos < chars.len() {
+                        let mut v = chars.clone();
+                        v[pos] = c;
+                        variants.push(v.iter().collect());
+                    }
+                    let mut v = chars.clone();
+                    v.insert(pos, c);
+                    variants.push(v.iter().collect());
+                    for text in variants {
+                        t.states += 1;
+                        t.evals += 1;
+                        match ty {
+                            0 => text_case::<Move>("Move", &text, sink, &mut t),
+                            1 => text_case::<Square>("Square", &text, sink, &mut t),
+                            2 => text_case::<File>("File", &text, sink, &mut t),
+                            3 => text_case::<Rank>("Rank", &text, sink, &mut t),
+                            _ => {
+                                text_case::<Piece>("Piece", &text, sink, &mut t);
+                                text_case::<Color>("Color", &text, sink, &mut t);
+                            }
+                        }
+                    }
+                }
+            }
+            t
+        })
+        .reduce(Tally::default, Tally::merge)
+}
+
 fn values(sink: &Sink) -> Tally {
     // every value with a legal shape survives format -> parse
     let mut t = Tally::default();
@@ -263,7 +308,7 @@ fn short_strings(thorough: bool, sink: &Sink) -> Tally {
     let jobs: Vec<(usize, char)> = ALPHA40.iter().map(|&c| (0usize, c)).chain(MOVE11.iter().map(|&c| (1usize, c))).collect();
     jobs.par_iter()
         .fold(Tally::default, |mut t, &(which, first)| {
-            let (alpha, max) = if which == 0 { (ALPHA40, 3usize) } else { (MOVE11, if thorough { 7 } else { 6 }) };
+            let (alpha, max) = if which == 0 { (ALPHA40, if thorough { 4usize } else { 3 }) } else { (MOVE11, if thorough { 7 } else { 6 }) };
             // strings starting with `first` (the empty string is covered once, below)
             let mut cur = String::new();
             cur.push(first);
@@ -311,12 +356,15 @@ pub fn run(run: &mut Run) {
     let t = chars(&run.sink);
     run.add("T-CHARS", json!({"unicode_scalar_values": 1112064}), true, t0, t);
     let t0 = Instant::now();
+    let t = unicode_templates(&run.sink);
+    run.add("T-UNITEMPLATE", json!({"templates": ["e2e4", "a7a8q", "h1", "e", "4", "q"], "edit": "every position substituted by / inserted with every Unicode scalar value"}), true, t0, t);
+    let t0 = Instant::now();
     let t = values(&run.sink);
     run.add("P-VALUES", json!({"moves": 64 * 64 * 5}), true, t0, t);
     let t0 = Instant::now();
     let mut t = short_strings(thorough, &run.sink);
     all_types("", &run.sink, &mut t);
-    run.add("T-SHORT", json!({"alphabet40_max_len": 3, "alphabet11_max_len": if thorough { 7 } else { 6 }}), true, t0, t);
+    run.add("T-SHORT", json!({"alphabet40_max_len": if thorough { 4 } else { 3 }, "alphabet11_max_len": if thorough { 7 } else { 6 }}), true, t0, t);
     run.sink.sample(|| json!({"fn": "try_offset", "sq": 7, "df": 127, "dr": 0, "expected": null}));
     run.sink.sample(|| json!({"fn": "parse", "type": "Move", "text": "a1h8q"}));
     let _ = strings_over;
